@@ -167,7 +167,7 @@ fn main() {
         let b: usize = it.next().unwrap().parse().unwrap();
         (a, b)
     };
-    let default_l = if tier == "thorough" { "10" } else { "7" };
+    let default_l = if tier == "thorough" { "8" } else { "7" };
     let l: usize = arg(&args, "--l", default_l).parse().unwrap();
     let mut ctx = Ctx {
         l,
